@@ -38,6 +38,9 @@ type Op struct {
 	// as it was.
 	Status int  `json:"status,omitempty"`
 	Bad    bool `json:"bad,omitempty"`
+	// Head (R): the answer to a HEAD request - the length of the representation
+	// in Content-Length, and no body.
+	Head bool `json:"head,omitempty"`
 }
 
 // Kinds SQ / SR: the same exchange goes through Logger.ModifyRequest /
@@ -90,6 +93,12 @@ func mkResOp(req *http.Request, marker string, op Op) *http.Response {
 	res := mkRes(req, marker)
 	if op.Status != 0 {
 		res.StatusCode = op.Status
+	}
+	if op.Head && !op.Bad {
+		hr := req.Clone(req.Context())
+		hr.Method = "HEAD"
+		res.Request, res.Body, res.ContentLength = hr, http.NoBody, 1234
+		res.Header.Set("Content-Length", "1234")
 	}
 	if op.Bad {
 		res.StatusCode = 200                            // (bodies of other statuses are not necessarily looked at)
@@ -448,6 +457,9 @@ func classesSeq(c Case) []string {
 		if op.Status >= 100 && op.Status < 200 {
 			flags["1xx-response"] = true
 		}
+		if op.Head && op.Kind == "R" {
+			flags["answer-to-head-with-content-length"] = true
+		}
 		if op.Kind == "SQ" || op.Kind == "SR" {
 			flags["exchange-with-skipped-round-trip-through-the-modifier"] = true
 		}
@@ -461,7 +473,7 @@ func classesSeq(c Case) []string {
 var seqRule = "histories of RecordRequest/RecordResponse/Export/ExportAndReset/Reset compared step by step with a list model; non-trivial = an ExportAndReset while both pending and completed entries exist, or re-use of an ID after it left the log"
 
 var propExhaustive = &kit.Prop[Case]{
-	ID: "C17", Name: "exhaustive", Rule: "ALL " + seqRule + "; sequences of fixed length L over 3 IDs (11 symbols incl. an unconvertible response and a 101), every prefix checked",
+	ID: "C17", Name: "exhaustive", Rule: "ALL " + seqRule + "; sequences of fixed length L over 3 IDs (12 symbols incl. an unconvertible response, a 101 and the answer to a HEAD request), every prefix checked",
 	Run: runSequential, NonTrivial: nontrivialSeq, Classes: classesSeq,
 }
 
@@ -485,6 +497,9 @@ var propMachine = &kit.Prop[Case]{
 			if (k == "Q" || k == "R") && rapid.IntRange(0, 7).Draw(t, "bad") == 0 {
 				op.Bad = true
 			}
+			if k == "R" && !op.Bad && rapid.IntRange(0, 7).Draw(t, "head") == 0 {
+				op.Head = true
+			}
 			c.Ops = append(c.Ops, op)
 		}
 		return c
@@ -497,7 +512,7 @@ func TestExhaustive(t *testing.T) {
 	}
 	L := kit.N(5, 6)
 	alphabet := []Op{{Kind: "Q", ID: 0}, {Kind: "Q", ID: 1}, {Kind: "Q", ID: 2}, {Kind: "R", ID: 0}, {Kind: "R", ID: 1}, {Kind: "R", ID: 2}, {Kind: "E"}, {Kind: "X"}, {Kind: "Z"},
-		{Kind: "R", ID: 0, Bad: true}, {Kind: "R", ID: 1, Status: 101}}
+		{Kind: "R", ID: 0, Bad: true}, {Kind: "R", ID: 1, Status: 101}, {Kind: "R", ID: 2, Head: true}}
 	propExhaustive.Enumerate(t, func(yield func(Case) bool) {
 		idx := make([]int, L)
 		for {
